@@ -11,7 +11,7 @@ RULE = ("3-5 probe mods with priorities from {50,100,100,150,30} in random confi
 TRUSTED = ["probe mods and the fault-injecting data source are harness code using rqalpha's mod / data-source extension points"]
 ASSUMPTIONS = ["Python exception plumbing is modelled as control flow only (which handler runs, which exit code)"]
 
-CALLBACKS = ["init", "before_trading", "open_auction", "handle_bar", "after_trading", "scheduled", "post_bar_handler"]
+CALLBACKS = ["init", "before_trading", "open_auction", "handle_bar", "after_trading", "scheduled", "scheduled_before_trading", "post_bar_handler"]
 
 
 class _HarnessStop(BaseException):
@@ -44,6 +44,18 @@ def one_run(ctx, corr):
         lm = rnd.choice(list(extra))
         extra[lm]["listener_fault"] = rnd.choice(["PRE_BAR", "POST_BEFORE_TRADING", "PRE_AFTER_TRADING", "POST_OPEN_AUCTION", "SETTLEMENT"])
         extra[lm]["listener_fault_after"] = rnd.randrange(0, 2)
+    # some runs persist on a crash (persist_mode on_crash, in-memory provider) and one of the probe mods is persistable with a get_state that fails then
+    persist_on_crash = rnd.random() < 0.3
+    base_extra = {}
+    import persist_mod
+    persist_mod.STORE.clear()          # (the in-memory store is per process: what an earlier crashed run persisted must not be restored into this one)
+    persist_mod.RESUME[0] = False
+    if persist_on_crash:
+        base_extra = {"persist": True, "persist_mode": "on_crash"}
+        extra["rqv_persist"] = {"enabled": True, "lib": "persist_mod", "priority": 10}
+        pm = rnd.choice([k_ for k_ in extra if k_.startswith("rqvp")])
+        extra[pm]["lib"] = "probe_mod_persist"
+        extra[pm]["get_state"] = rnd.choice(["raise", "raise", "ok"])
     extra["rqvp1"]["record_events"] = True
     extra["rqvfault"] = {"enabled": True, "lib": "fault_source", "priority": 20}
     fault_source.FLAGS.clear()
@@ -69,7 +81,7 @@ def one_run(ctx, corr):
                 raise user_exc
             import rqalpha.api as api
             if origin == "api_user":
-                if name in ("init", "before_trading", "after_trading"):
+                if name in ("init", "before_trading", "after_trading", "scheduled_before_trading"):
                     api.order_shares(stock, 100)            # refused in this phase: user error raised by the API
                 else:
                     api.order_shares("NOPE.XSHE", 100)      # invalid argument: user error raised by the API
@@ -84,6 +96,7 @@ def one_run(ctx, corr):
         import rqalpha.api as api
         api.subscribe_event(EVENT.POST_BAR, lambda c, e: hit("post_bar_handler"))
         api.scheduler.run_daily(lambda c, b: hit("scheduled"))
+        api.scheduler.run_daily(lambda c, b: hit("scheduled_before_trading"), time_rule="before_trading")
         hit("init")
     def trade_then(name):
         def f(c, b):
@@ -96,7 +109,7 @@ def one_run(ctx, corr):
                 "handle_bar": trade_then("handle_bar"), "after_trading": lambda c: hit("after_trading")}
     del probe_mods.LOG[:]
     probe_mods.N[0] = 0
-    res, exc = runner.run_real(S, dict(accounts={"stock": 1e6}, extra_mods=extra), handlers)
+    res, exc = runner.run_real(S, dict(accounts={"stock": 1e6}, extra_mods=extra, base_extra=base_extra), handlers)
     log = list(probe_mods.LOG)
     fault_source.FLAGS.clear()
     ctx.evaluations += 1
@@ -115,7 +128,7 @@ def one_run(ctx, corr):
     line = "RUNCTL %d %d %d %s %d %s" % (n_cb if not has_fault else n_cb + 5, int(has_fault), fi, model_origin, 5 * len(mods),
                                         " ".join("%d %d %d %d %s" % (m["tag"], m["prio"], m["start"] == "raise", m["teardown"] == "raise", (m["value"] if m["teardown"] == "value" else "-")) for m in mods))
     any_start_fail = any(m["start"] == "raise" for m in mods)
-    rp = {"mods": mods, "origin": origin, "raises": user_exc_kind if origin == "user" else None, "fault_callback": fault_cb, "occurrence": fault_occ, "callbacks_run": len(calls)}
+    rp = {"mods": mods, "persist_on_crash": persist_on_crash, "origin": origin, "raises": user_exc_kind if origin == "user" else None, "fault_callback": fault_cb, "occurrence": fault_occ, "callbacks_run": len(calls)}
     if ctx.driver_ok:
         rep = vlib.ask_driver([line])[0].split()
         m_code, m_ret, m_log = rep[0], rep[1], rep[2:]
@@ -163,7 +176,7 @@ def one_run(ctx, corr):
         if later:
             ctx.witness("C19.4", {"kind": "events_after_fault", "events": sorted(set(later))[:4]}, "after the fault (%s) the run still published %s" % (log[marks[0]], later[:8]), rp)
         ctx.stats["events_checked_after_fault"] += 1
-    ctx.nontrivial(origin, user_exc_kind if origin == "user" else None, fault_cb if state["faulted"] else None, tuple(m["teardown"] for m in mods), tuple(m["prio"] for m in mods), any_start_fail)
+    ctx.nontrivial(origin, persist_on_crash, user_exc_kind if origin == "user" else None, fault_cb if state["faulted"] else None, tuple(m["teardown"] for m in mods), tuple(m["prio"] for m in mods), any_start_fail)
     ctx.stats["runs_" + origin] += 1
     ctx.stats["faults_fired"] += int(has_fault)
     ctx.sample({"mods": [(m["tag"], m["prio"], m["teardown"]) for m in mods], "origin": origin, "fault": fault_cb, "starts": starts, "teardowns": tds, "callbacks_run": len(calls)})
